@@ -134,13 +134,43 @@ Proof.
   destruct t as [s|s|s|k s|a b c|d x]; try discriminate. destruct k; try discriminate; intros _; reflexivity.
 Qed.
 
+(** the expressions of [expr_all] carry no `<` `>` at their top level *)
+Lemma go'_no_angle ts : forall st, go' st ts = true -> has_angle ts = false.
+Proof.
+  induction ts as [|x r IH]; intros st H; [reflexivity|].
+  change (go' st (x :: r))
+    with ((match x with
+           | TGroup _ _ => if Nat.eqb st 2 then true else expr_tok_ok x
+           | _ => expr_tok_ok x
+           end)
+          && go' (match x with
+                  | TIdent _ => 1
+                  | TPunct "!" => if Nat.eqb st 1 then 2 else 0
+                  | _ => 0
+                  end) r) in H.
+  apply andb_prop in H. destruct H as [Hx Hr].
+  change (has_angle (x :: r)) with ((is_punct "<" x || is_punct ">" x) || has_angle r).
+  rewrite (IH _ Hr), orb_false_r.
+  destruct x as [s|s|s|k s|a b c|d l]; try reflexivity.
+  cbn [is_punct]. cbn [expr_tok_ok] in Hx.
+  destruct (String.eqb s "<") eqn:E1; [apply String.eqb_eq in E1; subst s; discriminate Hx|].
+  destruct (String.eqb s ">") eqn:E2; [apply String.eqb_eq in E2; subst s; discriminate Hx|].
+  reflexivity.
+Qed.
+
+Lemma expr_all_no_angle e u : expr_all e = Ok u -> has_angle e = false.
+Proof.
+  unfold expr_all. destruct (expr_toks_ok e) eqn:E; [|discriminate]. intros _.
+  rewrite expr_toks_ok_go in E. exact (go'_no_angle e 0 E).
+Qed.
+
 Lemma args_expr_of_expr_all e :
   expr_all e = Ok Datatypes.tt -> exists v, args_expr e = Ok v.
 Proof.
-  intros H. unfold args_expr. destruct e as [|t [|t2 r]].
-  - rewrite H. eexists. reflexivity.
+  intros H. pose proof (expr_all_no_angle e _ H) as Ha. unfold args_expr. destruct e as [|t [|t2 r]].
+  - rewrite Ha, H. eexists. reflexivity.
   - destruct (is_lit_tok t); [eexists; reflexivity|]. rewrite H. eexists. reflexivity.
-  - rewrite H. eexists. reflexivity.
+  - rewrite Ha, H. eexists. reflexivity.
 Qed.
 
 (** what a successful classification tells about the tokens *)
@@ -148,14 +178,17 @@ Inductive classified (e : toks) : Prop :=
 | CL_lit t : e = [t] -> is_lit_tok t = true -> classified e
 | CL_neg t : e = [TPunct "-"; t] -> is_num_lit t = true -> classified e
 | CL_path : parse_path_all e = Ok e -> classified e
-| CL_expr : expr_all e = Ok Datatypes.tt -> classified e.
+| CL_expr : expr_all e = Ok Datatypes.tt -> classified e
+| CL_angle x : has_angle e = true -> (forall t, e <> [t]) -> angle_expr false e = Ok x -> classified e.
 
 Lemma expr_all_unit e (u : unit) : expr_all e = Ok u -> expr_all e = Ok Datatypes.tt.
 Proof. destruct u. auto. Qed.
 
-Lemma classify_tail_classified v x : classify_tail v = Ok x -> classified v.
+Lemma classify_tail_classified last v x : (forall t, v <> [t]) -> classify_tail last v = Ok x -> classified v.
 Proof.
-  unfold classify_tail. destruct (has_angle v); [discriminate|].
+  intros Hs. unfold classify_tail. destruct (has_angle v) eqn:Ea.
+  { unfold classify_angle. intros H. apply angle_expr_ok in H. destruct H as [_ H].
+    exact (CL_angle v x Ea Hs H). }
   destruct (parse_path_all v) as [p| | |] eqn:Ep.
   - intros _. apply CL_path. rewrite Ep, (parse_path_all_ok v p Ep). reflexivity.
   - intros H. apply bind_ok' in H. destruct H as [u [Hu _]]. apply CL_expr. exact (expr_all_unit v u Hu).
@@ -184,13 +217,15 @@ Proof.
   - pose proof (classify_single_classified t1 v) as Hs. unfold classify_single in Hs.
     destruct t1 as [s|s|s|k s|a b c|d l]; try exact Hs.
     destruct s as [|[[] [] [] [] [] [] [] []] [|c s]]; exact Hs.
-  - pose proof (classify_tail_classified [t1; t2] v) as Ht. unfold classify_tail in Ht.
+  - pose proof (classify_tail_classified last [t1; t2] v ltac:(intros t; discriminate)) as Ht.
+    unfold classify_tail in Ht.
     destruct t1 as [s|s|s|k s|a b c|d l]; try exact Ht.
     destruct s as [|[[] [] [] [] [] [] [] []] [|c s]]; try exact Ht.
     destruct (is_num_lit t2) eqn:En.
     + intros _. exact (CL_neg _ t2 eq_refl En).
     + intros H. apply bind_ok' in H. destruct H as [u [Hu _]]. apply CL_expr. exact (expr_all_unit _ u Hu).
-  - pose proof (classify_tail_classified (t1 :: t2 :: t3 :: r) v) as Ht. unfold classify_tail in Ht.
+  - pose proof (classify_tail_classified last (t1 :: t2 :: t3 :: r) v ltac:(intros t; discriminate)) as Ht.
+    unfold classify_tail in Ht.
     destruct t1 as [s|s|s|k s|a b c|d l]; try exact Ht.
     destruct s as [|[[] [] [] [] [] [] [] []] [|c s]]; exact Ht.
 Qed.
@@ -202,11 +237,13 @@ Theorem nv_expr_has_list_form last e v :
 Proof.
   intros H. pose proof (classify_nv_of last e v H) as Hv.
   assert (Ha : exists v', args_expr e = Ok v').
-  { destruct (classify_classified last e v H) as [t -> Hl|t -> Hn|Hp|He].
+  { destruct (classify_classified last e v H) as [t -> Hl|t -> Hn|Hp|He|x Ha Hne Hx].
     - unfold args_expr. rewrite Hl. eexists. reflexivity.
     - apply args_expr_of_expr_all. exact (neg_lit_is_expr t Hn).
     - apply args_expr_of_expr_all. exact (path_is_expr e Hp).
-    - apply args_expr_of_expr_all. exact He. }
+    - apply args_expr_of_expr_all. exact He.
+    - unfold args_expr. destruct e as [|t1 [|t2 r]]; [discriminate Ha|exfalso; exact (Hne t1 eq_refl)|].
+      rewrite Ha. exists x. exact Hx. }
   destruct Ha as [v' Hv']. exists v'. split; [exact Hv'|]. split; [exact Hv|].
   exact (args_expr_nv_of e v' Hv').
 Qed.
